@@ -82,7 +82,8 @@ ps_access(int write, uint32_t addr, void *rbuf, const void *wbuf, size_t n)
         todo = (ps_fault_short && n > 0) ? n - 1 : 0;
     }
     uint64_t lo = addr, hi = (uint64_t)addr + n;
-    int inside = n <= ps_len && lo >= ps_base && hi <= (uint64_t)ps_base + ps_len;
+    /* a zero-length access touches nothing, wherever its (possibly wrapped) address points */
+    int inside = n == 0 || (n <= ps_len && lo >= ps_base && hi <= (uint64_t)ps_base + ps_len);
     if (!inside)
         ps_outside = 1;
     if (ps_nlog < PS_MAXLOG) {
@@ -97,7 +98,7 @@ ps_access(int write, uint32_t addr, void *rbuf, const void *wbuf, size_t n)
             ps_nwdata += todo;
         }
     }
-    if (!inside)
+    if (!inside || n == 0)
         return todo; /* pretend, without touching memory */
     if (write)
         memcpy(ps_medium + (addr - ps_base), wbuf, todo);
@@ -196,5 +197,14 @@ ps_configure(PersistentStorage *st, size_t datasize, uint32_t place, int ck, uns
 }
 
 static const uint32_t ps_places[4] = { 0, 1, 7, 4093 };
+#define PS_NPLACES 5
+/* placement i: the four small ones, or the region's last octet at the very top of the medium's address space */
+static uint32_t
+ps_place_of(int i, int ck, size_t datasize)
+{
+    if (i < 4)
+        return ps_places[i];
+    return (uint32_t)(0u - (uint32_t)(ps_cksize(ck) + datasize));
+}
 
 #endif
